@@ -349,14 +349,20 @@ class Materialised:
                 lines.append(f"    {f['n']}: {ann(f)}")
             if not fields:
                 lines.append("    pass")
-        elif fl in ("plain", "slots"):
+        elif fl in ("plain", "slots", "sigonly"):
             lines.append(f"class {name}({base}):" if base else f"class {name}:")
             if fl == "slots":
                 lines.append(f"    __slots__ = {tuple(f['n'] for f in fields)!r}")
-            for f in fields:
-                lines.append(f"    {f['n']}: {ann(f)}")
+            if fl != "sigonly":
+                for f in fields:
+                    lines.append(f"    {f['n']}: {ann(f)}")
             fields = [*inherited, *fields]   # the constructor, __eq__ and __repr__ of a subclass cover every field
-            params = ", ".join(f"{f['n']}" + (f"={dflt(f)}" if f.get("default") else "") for f in fields)
+            if fl == "sigonly":
+                # no class-level annotations: the fields are what the constructor's signature says, written as text
+                q = lambda f: repr(self.expr(f["t"], at_mod=mod, quote_refs=False))  # noqa: E731
+                params = ", ".join(f"{f['n']}: {q(f)}" + (f" = {dflt(f)}" if f.get("default") else "") for f in fields)
+            else:
+                params = ", ".join(f"{f['n']}" + (f"={dflt(f)}" if f.get("default") else "") for f in fields)
             # required parameters must precede defaulted ones: make everything keyword-only
             lines.append(f"    def __init__(self{', *, ' + params if params else ''}):")
             for f in fields:
@@ -523,6 +529,9 @@ def to_src(v, mat: Materialised | None = None) -> str:
             names = [f.name for f in dataclasses.fields(v) if f.init]
         else:
             names = [n for c in reversed(t.__mro__) for n in c.__dict__.get("__annotations__", {})]
+            if not names:   # fields declared by the constructor's signature only
+                import inspect as _inspect
+                names = [n for n in _inspect.signature(t).parameters if hasattr(v, n)]
         return f"{a}.{t.__qualname__}(" + ", ".join(f"{n}={R(getattr(v, n))}" for n in names if hasattr(v, n)) + ")"
     if isinstance(v, (int, float, str)):
         base = next(b for b in (bool, int, float, str) if isinstance(v, b))
